@@ -157,6 +157,10 @@ def _taus(version, frac):
 
 
 def run(ctx):
+    from .. import pipeline
+
+    # wiring: the run's stored columns are this stage applied to the run's stored columns (see nssmc/pipeline.py)
+    pipeline.run_in(ctx, ['taus', 'decay'], ('A', 'B', 'C'))
     tier = ctx.tier
     emins = {}
     for v in (1, 2, 3):
@@ -247,6 +251,10 @@ def run(ctx):
 
 
 def replay(case):
+    if isinstance(case, dict) and case.get("kind") == "pipeline":
+        from .. import pipeline
+
+        return pipeline.replay(case)
     k = case["kind"]
     if k == "emin":
         e, _ = min_reachable_energy(case["version"])
